@@ -1,11 +1,9 @@
-(* C07 - NFA/DFA conversions preserve the language.
-   Proved here: determinisation and NFA.from_dfa.  Epsilon-elimination: the implementation's
-   result is checked against the source by the proved comparator on every run (language, no
-   empty-string transition, every state reachable, validity); its model and language theorem
-   live with the NFA operations of C08 (lemmas named ops_eliminate_lambda_...). *)
+(* C07 - NFA/DFA conversions and epsilon-elimination preserve the language.
+   The mirror model of _eliminate_lambda and its lemmas (ops_elim_...) live with the NFA operations
+   (Model/NFAOps.v, Proofs/NFAOps.v) because the quotient constructions of C08 are built on it. *)
 From Coq Require Import List Arith Bool.
 From AV Require Import Base.Util Spec.Lang Spec.FA Model.Decide Model.Product Model.Build Model.Subset
-     Proofs.Decide Proofs.Subset.
+     Model.NFAOps Proofs.Decide Proofs.Subset Proofs.NFAOps.
 Import ListNotations.
 
 (* whenever the subset construction returns (always, for NFAs of up to 14 states - beyond that the
@@ -27,6 +25,18 @@ Theorem C07_from_dfa : forall d, valid_dfa d = true ->
   valid_nfa (from_dfa_m d) = true /\ L_nfa (from_dfa_m d) =L L_dfa d.
 Proof. intros d Hv. split; [exact (from_dfa_valid d Hv)|exact (from_dfa_lang d)]. Qed.
 Print Assumptions C07_from_dfa.
+
+(* eliminate_lambda: total on valid NFAs, the result is valid, has exactly the same language and no
+   empty-string transition left (that every state of the result is reachable is checked on the
+   implementation's result by the extracted all_reachable on every run; it is not part of this theorem) *)
+Theorem C07_eliminate_lambda : forall A, valid_nfa A = true ->
+  exists R, nfa_eliminate_lambda A = Ok R /\ valid_nfa R = true /\ L_nfa R =L L_nfa A /\
+            (forall p q, ~ n_edge R p None q).
+Proof.
+  intros A HA. destruct (ops_elim_total A HA) as [R [E V]].
+  exists R. split; [exact E|]. split; [exact V|]. apply (ops_elim_lang A HA R E).
+Qed.
+Print Assumptions C07_eliminate_lambda.
 
 (* the comparators used to judge the implementation's results are exact *)
 Theorem C07_comparators_exact :
